@@ -48,18 +48,27 @@ class Prov:
     bm: Optional[str] = None          # bound-method alias: name of the method
     parts: Optional[Tuple["Prov", ...]] = None       # the value is a tuple with these components
     eparts: Optional[Tuple["Prov", ...]] = None      # each ELEMENT is a tuple with these components (zip, enumerate, items)
+    # identity of the direct elements, when it is known more precisely than `elem` (which also covers whatever the elements
+    # contain): a tuple of freshly computed vectors has eroots = {} although its cells come from the operands.  A token "p[]"
+    # stands for "a direct element of parameter p".  None = not known separately (same as elem).
+    eroots: Optional[FrozenSet[str]] = None
+
+    @property
+    def er(self) -> FrozenSet[str]:
+        return self.elem if self.eroots is None else self.eroots
 
     def union(self, o: "Prov") -> "Prov":
         def merge(a, b):
             if a is None or b is None or len(a) != len(b):
                 return None
             return tuple(x.union(y) for x, y in zip(a, b))
+        er = None if (self.eroots is None and o.eroots is None) else (self.er | o.er)
         return Prov(self.roots | o.roots, self.elem | o.elem, self.bm or o.bm,
-                    merge(self.parts, o.parts), merge(self.eparts, o.eparts))
+                    merge(self.parts, o.parts), merge(self.eparts, o.eparts), er)
 
     def element(self) -> "Prov":
         """Provenance of one element obtained by iteration / indexing."""
-        return Prov(self.elem, self.elem, None, self.eparts, None)
+        return Prov(self.er, self.elem, None, self.eparts, None)
 
     @property
     def all(self) -> FrozenSet[str]:
@@ -77,6 +86,7 @@ class Write:
     line: int
     text: str = field(default="", compare=False)
     via: Tuple[str, ...] = field(default=(), compare=False)  # call chain from the summarised function down to `func`
+    elem_only: bool = False   # the written object is a direct ELEMENT of `root` (its own field), not root itself or deeper
 
     @property
     def kind(self) -> str:
@@ -149,7 +159,7 @@ class Effects:
 
     # ------------------------------------------------------------------
     def _analyse(self, f: FuncInfo) -> Summary:
-        an = _FuncAnalysis(self, f, {p: Prov(frozenset({p}), frozenset({p})) for p in f.params}, ())
+        an = _FuncAnalysis(self, f, {p: Prov(frozenset({p}), frozenset({p}), None, None, None, frozenset({p + "[]"})) for p in f.params}, ())
         an.run()
         s = Summary(f, an.writes, an.ret)
         s.returns_fresh = not an.ret.roots
@@ -269,11 +279,13 @@ class _FuncAnalysis:
     # -- write events -----------------------------------------------------
     def _write(self, roots, fld: str, node: ast.AST, via: Tuple[str, ...] = (), origin: Optional[Write] = None):
         for r in roots:
+            eo = r.endswith("[]")
+            r = r[:-2] if eo else r
             if origin is not None:
                 self.writes.add(Write(r, origin.fld, origin.func, origin.line, origin.text,
-                                      (self.f.qualname,) + origin.via if not via else via))
+                                      (self.f.qualname,) + origin.via if not via else via, eo))
             else:
-                self.writes.add(Write(r, fld, self.f.qualname, getattr(node, "lineno", 0), short(node, 100), self.via))
+                self.writes.add(Write(r, fld, self.f.qualname, getattr(node, "lineno", 0), short(node, 100), self.via, eo))
 
     def _store(self, tgt: ast.AST, deleting: bool = False) -> None:
         base = self.ev(tgt.value)
@@ -351,13 +363,19 @@ class _FuncAnalysis:
             a |= px.all
         if any(isinstance(x, ast.Starred) for x in e.elts):
             return Prov(E, a)
-        return Prov(E, a, None, tuple(parts))
+        er = E
+        for px in parts:
+            er |= px.roots
+        return Prov(E, a, None, tuple(parts), None, er)
 
     def _ev_List(self, e) -> Prov:
         a = E
+        er = E
         for x in e.elts:
-            a |= self.ev(x).all
-        return Prov(E, a)
+            px = self.ev(x)
+            a |= px.all
+            er |= px.all if isinstance(x, ast.Starred) else px.roots
+        return Prov(E, a, None, None, None, er)
 
     _ev_Set = _ev_List
 
@@ -376,12 +394,14 @@ class _FuncAnalysis:
                 self.ev(c)
         a = E
         ep = None
+        er = None
         for x in elts:
             px = self.ev(x)
             a |= px.all
             if len(elts) == 1:
                 ep = px.parts
-        return Prov(E, a, None, None, ep)
+                er = px.roots
+        return Prov(E, a, None, None, ep, er)
 
     def _ev_ListComp(self, e) -> Prov:
         return self._comp(e, [e.elt])
@@ -446,7 +466,7 @@ class _FuncAnalysis:
                 if nm == "enumerate" and args:
                     return Prov(E, a, None, None, (FRESH, args[0].element()))
                 if nm in ("list", "tuple", "sorted", "reversed", "iter") and len(args) == 1:
-                    return Prov(E, a, None, None, args[0].eparts)
+                    return Prov(E, a, None, None, args[0].eparts, args[0].eroots)
                 return Prov(E, a)
             return FRESH
 
@@ -598,16 +618,18 @@ class _FuncAnalysis:
                 a = actual.get(w.root)
                 if a is None:
                     continue
-                tgt_roots = a.roots | a.elem
+                # a write to a direct element of the parameter lands on the direct elements of the argument only
+                tgt_roots = a.er if w.elem_only else (a.roots | a.elem)
                 for r in tgt_roots:
-                    self.writes.add(Write(r, w.fld, w.func, w.line, w.text, (self.f.qualname,) + w.via))
+                    eo = r.endswith("[]")
+                    self.writes.add(Write(r[:-2] if eo else r, w.fld, w.func, w.line, w.text, (self.f.qualname,) + w.via, eo))
         roots, elem = E, E
         for q in s.ret.roots:
-            a = actual.get(q)
+            a = actual.get(q[:-2] if q.endswith("[]") else q)
             if a is not None:
                 roots |= a.all
         for q in s.ret.elem:
-            a = actual.get(q)
+            a = actual.get(q[:-2] if q.endswith("[]") else q)
             if a is not None:
                 elem |= a.all
         return Prov(roots, elem | roots)
